@@ -27,7 +27,8 @@ ApiStep(e) ==
     [] e.op = "fill" -> FillTemplate(e.f, e.p)
     [] e.op = "solve" -> CallSolve(e.f, e.p, e.via)
     [] e.op = "simulate" -> CallSimulate(e.f, e.p, e.init, e.seed, e.vfrom, e.via)
-    [] e.op = "solve_and_simulate" -> CallSolveAndSimulate(e.f, e.p, e.init, e.seed, e.via)
+    [] e.op = "solve_and_simulate" /\ e.vfrom = 0 -> CallSolveAndSimulate(e.f, e.p, e.init, e.seed, e.via)
+    [] e.op = "solve_and_simulate" /\ e.vfrom # 0 -> CallCombinedWithArrays(e.f, e.p, e.init, e.seed, e.vfrom, e.via)
 
 Judge(e, term) ==
   IF e.op = "create" THEN
